@@ -4,7 +4,8 @@ A *spec* is plain JSON (so that replays are self-contained):
   {"groups": [
       {"name": "R0", "kind": "root", "cfw": "PyArrowTable", "cols": {"a": [1,2,3], "k": [1,2,3]}, "index": ["k"]?},
       {"name": "D0", "kind": "derived", "cfw": "PyArrowTable" | null,
-       "features": {"f": {"inputs": ["a", "b"], "c0": 1, "coefs": [1, 2], "opt": {"g": 1}?}}}],
+       "features": {"f": {"inputs": ["a", "b"], "c0": 1, "coefs": [1, 2], "opt": {"g": 1}?}},
+       "style": "copy" | "inplace" | "series"?}],        (result style of the group; default: spec["inplace"] ? "inplace" : "copy")
    "request": [{"name": "f", "opt": {..}?, "type": "INT64"?}, ...],
    "links": [{"jt": "INNER", "l": "R0", "r": "R1", "li": ["k"], "ri": ["k"]}]}
 
@@ -280,7 +281,16 @@ class Universe:
                         col = column_values(data, inp, bool(uni.spec.get("tolerant")))
                         vals = [None if (a is None or b is None) else a + coef * b for a, b in zip(vals, col)]
                     new[n] = vals
-                out = with_columns(data, new, inplace=bool(uni.spec.get("inplace")))
+                # result style of the group: "copy" (a new table: replacing), "inplace" (the incoming pandas frame / python-dict
+                # rows are extended and returned), "series" (pandas, exactly one new column: a pd.Series named like the feature,
+                # which PandasDataFrame.transform inserts into the frame the object holds; otherwise as "inplace")
+                style = g.get("style") or ("inplace" if uni.spec.get("inplace") else "copy")
+                if style == "series" and len(new) == 1 and hasattr(data, "columns") and not hasattr(data, "column_names"):
+                    import pandas as _pd
+                    (k1, v1), = new.items()
+                    out = _pd.Series(v1, name=k1, index=data.index, dtype=(object if any(x is None for x in v1) else None))
+                else:
+                    out = with_columns(data, new, inplace=style in ("inplace", "series"))
                 uni.listener.on_exit(gname, names)
                 return out
             ns["match_feature_group_criteria"] = classmethod(match_feature_group_criteria)
